@@ -306,21 +306,43 @@ fn partial_prop(model: &Model, tape: &[u32], st: &mut Stats) -> Result<(), Strin
     let mut t = Tape::new(tape);
     let mut env = Env::new(model, 8);
     let id = |cmd: &str| model.spec.decls.iter().position(|d| d.cmd == cmd).expect("fixture declaration");
-    let (q1, q2) = (id("*IDN?"), id("MEASure:TEMPerature?"));
+    // the second answer is a string or (formatted through write_fmt) a long integer
+    let second_is_int = t.chance(1, 2);
+    let (q1, q2) = (id("*IDN?"), if second_is_int { id("SYSTem:A?") } else { id("MEASure:TEMPerature?") });
     let n = [24usize, 32, 48, 64][t.below(4)];
     // first answer: "<l1 letters>"\n fits; second pushes the total beyond N
-    let l1 = t.range(0, n - 4);
+    let (l1, l2) = if second_is_int {
+        // 19 digits (+ sign) + newline behind a first answer that leaves less room than that
+        let l1 = t.range(n.saturating_sub(3 + 19), n - 4);
+        (l1, 17)
+    }
+    else {
+        let l1 = t.range(0, n - 4);
+        let l2_min = (n + 1).saturating_sub(l1 + 3 + 3);
+        (l1, t.range(l2_min.min(60), 60))
+    };
     let first_len = l1 + 3;
-    let l2_min = (n + 1).saturating_sub(first_len + 3);
-    let l2 = t.range(l2_min.min(60), 60);
     if first_len + l2 + 3 <= n {
         return Ok(());
     }
     let text = |t: &mut Tape, n: usize| -> String { (0..n).map(|_| b"abcXYZ019 ,;"[t.below(12)] as char).collect() };
     env.rets[q1] = vcore::rval::RVal::Str(text(&mut t, l1));
-    env.rets[q2] = vcore::rval::RVal::Str(text(&mut t, l2));
+    env.rets[q2] = if second_is_int {
+        vcore::rval::RVal::Int(if t.chance(1, 2) { i64::MIN as i128 } else { i64::MAX as i128 - t.below(1000) as i128 })
+    }
+    else {
+        vcore::rval::RVal::Str(text(&mut t, l2))
+    };
     let swap = t.chance(1, 3);
-    let stream: Vec<u8> = if swap { b"*IDN?;MEAS:TEMP?\nA 1\n".to_vec() } else { b"*IDN?;:MEASURE:TEMPERATURE?\n*RST\n".to_vec() };
+    let stream: Vec<u8> = if second_is_int {
+        if swap { b"*IDN?;SYST:A?\nA 1\n".to_vec() } else { b"*IDN?;:SYSTEM:A?\n*RST\n".to_vec() }
+    }
+    else if swap {
+        b"*IDN?;MEAS:TEMP?\nA 1\n".to_vec()
+    }
+    else {
+        b"*IDN?;:MEASURE:TEMPERATURE?\n*RST\n".to_vec()
+    };
     if stream.iter().position(|b| *b == b'\n').unwrap() + 1 > n {
         return Ok(());
     }
@@ -385,7 +407,7 @@ fn main() {
     let cases = h.tier.pick(40_000, 1_000_000);
     h.check(
         "c10.first_answer_when_the_second_does_not_fit",
-        "proptest tapes -> one message with two string queries whose answers together exceed the N-byte response buffer while the first fits (N in 24,32,48,64), followed by another message, random read schedule: when the transport is asked for input after the first message is completely delivered, the first answer (decoded) must have been written and flushed; non-trivial = every case",
+        "proptest tapes -> one message with two queries (string, then string or 19-digit integer) whose answers together exceed the N-byte response buffer while the first fits (N in 24,32,48,64), followed by another message, random read schedule: when the transport is asked for input after the first message is completely delivered, the first answer (decoded) must have been written and flushed; non-trivial = every case",
         false,
         |h, st| h.tape_search("c10.first_answer_when_the_second_does_not_fit", cases, 120, st, |tape, st| partial_prop(&model, tape, st)),
         |case| replay_tape(case, |tape, st| partial_prop(&model, tape, st)),
